@@ -330,7 +330,19 @@ class PVLParser(object):
         """
         (begin, block_name) = self.parse_begin_aggregation_statement(tokens)
 
-        agg = self.aggregation_cls(begin)
+        try:
+            agg = self.aggregation_cls(begin)
+        except ValueError as err:
+            # The Begin-Aggregation-Statement has already been consumed,
+            # so the caller cannot try some other way to parse this
+            # (ISISGrammar lists BEGIN_GROUP as an aggregation keyword,
+            # but neither as a group nor as an object keyword).
+            try:
+                tokens.throw(ValueError, str(err))
+            except LexerError:
+                raise
+            except ValueError:
+                raise ParseError(str(err))
 
         while True:
             self.parse_WSC_until(None, tokens)
